@@ -427,6 +427,12 @@ func (p *VipnodePool) requestHosts(ctx context.Context, nodeID string, numReques
 			remotes = append(remotes, hostService{
 				node, remote,
 			})
+			if len(remotes) == numRequestHosts {
+				// That is as many hosts as were asked for. The extra
+				// candidates were only requested to make up for the ones
+				// that get skipped.
+				break
+			}
 		} else {
 			// TODO: Good time to mark the host as inactive? Or would that mess
 			// with assumptions about some grace period of activity we
